@@ -1,14 +1,4 @@
 // ---- src/util/semirings/polynomial_semiring_implementation.rs: polynomials truncated at MAX_COEFFS coefficients ----
-// mirror of src/util/semirings/semiring_traits.rs `Semiring` (Debug/Display supertraits dropped), with the spec-level
-// constants the contracts need
-pub trait Semiring: Copy + ops::Add<Self, Output = Self> + ops::Mul<Self, Output = Self> {
-    spec fn one_s() -> Self;
-    spec fn zero_s() -> Self;
-    /// the arithmetic of the coefficient type has a specification and no precondition (true of every shipped type)
-    spec fn ops_ok() -> bool;
-    fn one() -> (r: Self) requires Self::ops_ok() ensures r == Self::one_s();
-    fn zero() -> (r: Self) requires Self::ops_ok() ensures r == Self::zero_s();
-}
 pub open spec fn coeff_ops_ok<C: Semiring>() -> bool {
     &&& C::obeys_add_spec() && C::obeys_mul_spec()
     &&& forall|a: C, b: C| #[trigger] a.add_req(b)
